@@ -1259,6 +1259,18 @@ evutil_getaddrinfo_common_(const char *nodename, const char *servname,
 	}
 
 
+	/* A numeric address of the family that the hints exclude is not a
+	 * host name: there is nothing a nameserver could tell us about it. */
+	if (hints->ai_family == PF_INET) {
+		struct in6_addr a6;
+		if (1 == evutil_inet_pton_scope(AF_INET6, nodename, &a6, &if_index))
+			return EVUTIL_EAI_ADDRFAMILY;
+	} else if (hints->ai_family == PF_INET6) {
+		struct in_addr a4;
+		if (1 == evutil_inet_pton(AF_INET, nodename, &a4))
+			return EVUTIL_EAI_ADDRFAMILY;
+	}
+
 	/* If we have reached this point, we definitely need to do a DNS
 	 * lookup. */
 	if ((hints->ai_flags & EVUTIL_AI_NUMERICHOST)) {
